@@ -7,7 +7,8 @@ from . import run
 
 EXPECTED = {"HexProofs": ["DigitRoundTrip", "HexRoundTrip"],
             "RlpProofs": ["HdrOfEncStr", "HdrShape", "AcceptedStringIsCanonical", "HdrIsLocal"],
-            "RlpProofsAt": ["HdrIsLocalAt", "AcceptedStringIsCanonicalAt", "HdrOfEncStrAt"]}
+            "RlpProofsAt": ["HdrIsLocalAt", "AcceptedStringIsCanonicalAt", "HdrOfEncStrAt"],
+            "NodeIdProofs": ["HexEncShape", "NodeIdTextRoundTrip"]}
 
 
 def main(timeout=1500):
